@@ -58,14 +58,16 @@ type Extra struct {
 }
 
 type K struct {
-	W        *World
-	C        *Chooser
-	F        FaultCfg
-	Extras   []*Extra
-	Ops      []*Op
-	opSeq    int
-	MaxSteps int
-	Notes    map[string]interface{}
+	// AlwaysPark: schedule points that park for the whole run, whatever InstallHooks is given
+	AlwaysPark func(point string, owner interface{}) bool
+	W          *World
+	C          *Chooser
+	F          FaultCfg
+	Extras     []*Extra
+	Ops        []*Op
+	opSeq      int
+	MaxSteps   int
+	Notes      map[string]interface{}
 	// Invariant, when set, runs at every quiescent point.
 	Invariant     func()
 	lastFaultStep int
